@@ -270,7 +270,7 @@ def generate_mpo(I, terms=None, opts_svd=None, N=None, f_map=None) -> MpsMpoOBC:
         reshapes.append((leg2, leg3, sorted(reshape)))
 
     amplitudes = [term.amplitude * sign for term, sign in zip(terms, signs)]
-    dtype = 'complex128' if any(isinstance(a, complex) for a in amplitudes) else config.default_dtype
+    dtype = 'complex128' if any(isinstance(a, complex) for a in amplitudes) or any(op.is_complex() for op in unique_ops) else config.default_dtype
     J = Tensor(config=config, s=(-1, 1), dtype=dtype)
     J.set_block(ts=(tleft, tleft), Ds=(1, M), val=amplitudes)
 
